@@ -70,7 +70,11 @@ Bad(ev) ==
          \/ ~(ls[ev.g].must \subseteq Range(ev.res))
          \/ ~(Range(ev.res) \subseteq ls[ev.g].may)
     \* an override made before the registry was first read must be what the name denotes afterwards
-    [] ev.ev = "init" -> ev.early # <<>> /\ \A i \in DOMAIN ev.names : ev.names[i][1] = ev.early[1] => ev.names[i][2] # ev.early[2]
+    \* ... and the built-in names (ev.builtins: the documented six, a constant of the driver -- not taken on trust
+    \* from the library's own listing) are there from the start, each denoting something
+    [] ev.ev = "init" -> \/ ~(Range(ev.builtins) \subseteq {ev.names[i][1] : i \in DOMAIN ev.names})
+                         \/ \E i \in DOMAIN ev.names : ev.names[i][1] \in Range(ev.builtins) /\ ev.names[i][2] = Empty
+                         \/ ev.early # <<>> /\ \A i \in DOMAIN ev.names : ev.names[i][1] = ev.early[1] => ev.names[i][2] # ev.early[2]
     \* quiescent style listing (auto.ListStyles): sorted and showing every registered name and the four sub-packages
     \* a listing that was returned earlier has changed in its caller's hands
     [] ev.ev = "listchanged" -> TRUE
@@ -96,7 +100,7 @@ Step(ev) ==
          /\ open' = With(open, ev.g, [name |-> ev.name, did |-> ev.did, start |-> ev.t])
          \* every lookup of that name and every listing in flight may see it from now on
          /\ rd' = [g \in DOMAIN rd |-> IF rd[g].name = ev.name
-                                         THEN [rd[g] EXCEPT !.allowed = @ \cup {ev.did}] ELSE rd[g]]
+                                         THEN [rd[g] EXCEPT !.allowed = @ \cup {ev.did}, !.quiet = FALSE] ELSE rd[g]]
          /\ ls' = [g \in DOMAIN ls |-> [ls[g] EXCEPT !.may = @ \cup {ev.name}]]
          /\ UNCHANGED live
     [] ev.ev = "ret" /\ ev.op = "register" ->
@@ -107,10 +111,16 @@ Step(ev) ==
             /\ open' = Without(open, ev.g)
             /\ UNCHANGED <<rd, ls>>
     [] ev.ev = "call" /\ ev.op = "named" ->
-         /\ rd' = With(rd, ev.g, [name |-> ev.name, allowed |-> LiveDids(ev.name) \cup OpenDids(ev.name)])
+         /\ rd' = With(rd, ev.g, [name |-> ev.name, allowed |-> LiveDids(ev.name) \cup OpenDids(ev.name),
+                                   quiet |-> OpenDids(ev.name) = {}])
          /\ UNCHANGED <<live, open, ls>>
     [] ev.ev = "ret" /\ ev.op = "named" ->
-         /\ rd' = Without(rd, ev.g) /\ UNCHANGED <<live, open, ls>>
+         \* "the latest once registrations have finished": a lookup during which no registration of the name was in
+         \* progress has said which one is the latest -- every later lookup must agree (this matters when the last
+         \* registrations of a name overlapped each other: either may be the latest, but only one of them)
+         /\ live' = IF ev.g \in DOMAIN rd /\ rd[ev.g].quiet /\ ev.name \in DOMAIN live /\ ev.res \in rd[ev.g].allowed
+                    THEN With(live, ev.name, {x \in live[ev.name] : x.did = ev.res}) ELSE live
+         /\ rd' = Without(rd, ev.g) /\ UNCHANGED <<open, ls>>
     [] ev.ev = "call" /\ ev.op = "list" ->
          /\ ls' = With(ls, ev.g, [must |-> Known, may |-> Known \cup OpenNames])
          /\ UNCHANGED <<live, open, rd>>
